@@ -262,7 +262,7 @@ CLAIMED["C12"] = {
             "(one argument), an expression statement compiles to `<expr> void` with the expression's code present on every path, and the unwrap handler, read as a table by abstract interpretation over {nil, present value of 7 kinds}, returns Err on nil "
             "with a message formatting args[0] and Ok on every present kind; or -- the generator emits `<x> jmp_not_nil <n> <y>` with n = len(code(y)) + 1, "
             "and the jmp_not_nil handler pops without jumping on nil and jumps without popping on a present value; ?= -- the generator emits `<e> "
-            "unwrap_into <name>`, and the unwrap_into handler stores exactly once and pushes false on nil, true on a present value; == nil -- "
+            "unwrap_into <name>`, and the unwrap_into handler stores exactly once, through the same primitive as `store` (an assignment to the existing variable, not a fresh cell in the top frame), and pushes false on nil, true on a present value; the builder of `(x) or y` never returns x alone for a type that can hold nil; == nil -- "
             "Primitive::equals never fails with a nil operand. That a present optional is the plain value at run time is C02.optional-rep.",
     "technique": "static analysis: decision tables of the instruction handlers by abstract interpretation of rustc MIR; symbolic instruction sequences of the generators; origin slicing of the position string",
     "design_ref": "DESIGN.md §5 C12, §9.1",
@@ -305,7 +305,7 @@ NOT_APPLICABLE = {
 }
 
 # no hook commits exist; the only commits made to /repo are unguarded "fix:" repairs of genuine defects (see known_findings.json)
-FIX_COMMITS = ["e2ae2a9", "cb2d1e0", "e7575e5", "7bc2f7d", "0af4d83", "e4a4c00", "58e025f", "686179e", "7296d9a", "fa4b68b", "379557f", "4b30646", "0420930", "3aba53e", "2f2a1a1", "40a185d", "926b1f7", "1bc1139", "80aa30b", "cb4346c", "34ccc50", "c46bbfb", "52e39f3", "113558c", "2f9df7c", "3049d27", "8c4d891", "b57e9f6", "06f5ab2", "b6686d7", "5bdb4bc", "21f2ccc", "f629b30", "fbc7074", "28b2626", "6155775", "1ab99d9", "cee19c4", "53a1bd0", "b6cca17"]
+FIX_COMMITS = ["e2ae2a9", "cb2d1e0", "e7575e5", "7bc2f7d", "0af4d83", "e4a4c00", "58e025f", "686179e", "7296d9a", "fa4b68b", "379557f", "4b30646", "0420930", "3aba53e", "2f2a1a1", "40a185d", "926b1f7", "1bc1139", "80aa30b", "cb4346c", "34ccc50", "c46bbfb", "52e39f3", "113558c", "2f9df7c", "3049d27", "8c4d891", "b57e9f6", "06f5ab2", "b6686d7", "5bdb4bc", "21f2ccc", "f629b30", "fbc7074", "28b2626", "6155775", "1ab99d9", "cee19c4", "53a1bd0", "b6cca17", "c78cdc8"]
 
 PENDING = "check not built yet in this round (framework under construction); planned per DESIGN.md §5/§8"
 
